@@ -32,7 +32,7 @@ var clauseKeywords = map[string]bool{
 	"contract": true, "requires": true, "ensures": true, "modifies": true, "loop": true,
 	"ghost": true, "pred": true, "on": true, "axiom": true, "do": true, "assert": true,
 	"atreturn": true, "atentry": true, "decl": true, "assume": true, "inline": true, "opaque": true,
-	"effectfree": true, "terminates": true,
+	"effectfree": true, "terminates": true, "calls": true,
 }
 
 func lex(src string, file string) ([]stoken, error) {
@@ -272,6 +272,7 @@ type Contract struct {
 	Line     int
 	Pkg      string // package path the contract file belongs to ("" for trusted spec files)
 	EffectFree bool
+	Calls      []string // parameters of function type that the (assumed) callee may invoke any number of times
 	Terminates bool
 }
 
@@ -761,6 +762,21 @@ func (p *parser) parseContract() (*Contract, error) {
 		case "effectfree":
 			p.next()
 			c.EffectFree = true
+		case "calls":
+			// calls f, g: the callee may invoke these function-valued parameters any number of times
+			p.next()
+			for {
+				n, err := p.ident()
+				if err != nil {
+					return nil, err
+				}
+				c.Calls = append(c.Calls, n)
+				if p.isOp(",") {
+					p.next()
+					continue
+				}
+				break
+			}
 		case "terminates":
 			p.next()
 			c.Terminates = true
